@@ -77,8 +77,9 @@ func drawFlags(r *rng, rules []string, lr bool) []string {
 		for i := 0; i < n; i++ {
 			names = append(names, rules[r.intn(len(rules))])
 		}
-		if r.chance(1, 12) {
-			names = append(names, "NoSuchRule")
+		if r.chance(1, 8) {
+			// a name that is no rule: a typo, a name in another script, a very long one
+			names = append(names, r.pick([]string{"NoSuchRule", "Elément", "Grösse", "Правило", "規則", "Sta rt", strings.Repeat("Rule", 80), "A\x00B", "start"}))
 		}
 		if r.chance(1, 8) {
 			names = append(names, "", names[0], " "+names[0])
@@ -457,6 +458,12 @@ func genLRRecoveryN(r *rng, i int) toolInput {
 		// blocks at every expression index: generated identifiers built from
 		// name + index meet (onA + 11 = onA1 + 1)
 		"A <- " + strings.Repeat("&{ return true, nil } ", 14) + "'a' { return nil, nil }\nA1 <- 'b' { return nil, nil } / &{ return true, nil } 'c'\nA11 <- 'c' { return nil, nil }\nA2 <- #{ return nil } !{ return false, nil } 'd' { return nil, nil }\nA12 <- 'e' { return nil, nil }\n",
+		// a cycle of rules that reach each other in leading position, one of them
+		// with a later alternative that matches the empty string, in every order
+		// of the names (analyses that iterate to a fixed point visit them by name)
+		"Start <- Args\nArgs <- ArgList\nArgList <- Args ',' Arg / Arg?\nArg <- [a-z]+\n",
+		"Start <- Zz\nZz <- Aa\nAa <- Zz ',' Mm / Mm?\nMm <- [a-z]+\n",
+		"Start <- Bb\nBb <- Cc / 'x'?\nCc <- Aa 'y'\nAa <- Bb 'z' / Cc\n",
 		// a recovery expression that is nothing but a reference to a small rule
 		// which the same rule uses once more (food for the optimizer's book-keeping
 		// of who uses whom)
@@ -469,6 +476,9 @@ func genLRRecoveryN(r *rng, i int) toolInput {
 	g := shapes[i]
 	if r.chance(1, 2) || strings.Contains(g, "{ return") {
 		g = "{\npackage gen\n}\n" + g
+	}
+	if strings.HasPrefix(g, "Start <-") {
+		return toolInput{Name: "nullcycle", Class: "genlr", Grammar: []byte(g), Rules: []string{"Start"}}
 	}
 	if r.chance(1, 3) && !strings.Contains(g, "A11") && strings.Contains(g, "E <-") {
 		g = "Top <- 'k' E?\n" + g
